@@ -57,8 +57,25 @@ def run(ctx):
         src_key = c.callee_q.endswith("max_by_key") and any(cb.calls_to(r"MatchedArg::source$") for cb in closure_bodies(fx, c))
         res.check(src_key and re.search(r"^get\(vals_map", a0) is not None and re.search(r"^get\(self", a1) is not None, "R9.2", "parent-wins-only-if-greater", c.where(),
                   "max_by_key(parent, child, source): a tie keeps the child's value", "global merge picks with %s(%s, %s): on equal sources the ancestor's value replaces the one given at the deeper level (std returns the second argument on a tie)" % (c.callee_q.rsplit("::", 1)[1], a0[:40], a1[:40]))
+    # the comparison may sit in a closure (`vals_map.get(id).is_some_and(|parent| parent.source() > ma.source())`): whatever is done with
+    # its result, a test that is true on EQUAL sources with the parent on the stronger side (>=, or child <= parent), or one that is only
+    # true when the child is STRICTLY stronger, lets the ancestor's value win a tie
+    import panics as _P
+    ccmp = [(t, c) for t in tree(fg) if t is not fg for c in t.calls_to(r"PartialOrd>?::(gt|lt|ge|le)$")]
+    for t, c in ccmp:
+        op = c.callee_q.rsplit("::", 1)[1]
+        a, b_ = _P.resolved_operand(t, expr(t, c.args[0])), _P.resolved_operand(t, expr(t, c.args[1]))
+        if "source(" not in a or "source(" not in b_:
+            continue
+        pa, pb = "vals_map" in a, "vals_map" in b_
+        if pa == pb:
+            continue
+        parent_first = pa
+        ok = (op, parent_first) in (("gt", True), ("lt", False), ("ge", False), ("le", True))
+        res.check(ok, "R9.2", "parent-wins-only-if-greater", c.where(), "a tie between the sources keeps the deeper level's value",
+                  "global merge compares %s %s %s: on equal sources (the global given at two levels) the ancestor's value is kept instead of the one given at the deeper level" % (a[:50], op, b_[:50]))
     if not mx:
-        res.floor("R9.2", "source comparison in fill_in_global_values", len(cmpc), 1)
+        res.floor("R9.2", "source comparison in fill_in_global_values", len(cmpc) + len([1 for t, c in ccmp if "source(" in expr(t, c.args[0])]), 1)
     for c in cmpc:
         op = c.callee_q.rsplit("::", 1)[1]
         a, b_ = expr(fg, c.args[0]), expr(fg, c.args[1])
